@@ -2,12 +2,12 @@ package main
 
 func init() {
 	register(propSpec{
-		ID: "C18", Pkg: "props/c18",
+		ID: "C18", Pkg: "props/c18", QuickParallel: 3,
 		Rule: "cases: a model with a parameter vector and four branch lengths, one per band [1e-8,1e-4], [1e-4,0.05], [0.05,3], [3,100] (log-uniform, the ends 1e-8 and 100 over-represented) and a split s+u=t. " +
 			"Nucleotide: JC, K2P, F81, F84, TN93, GTR; kappa, kappa1, kappa2 in [0.05,50], six GTR rates in [0.02,50] (log-uniform, the ends and 1 over-represented), base frequencies on the simplex with every component >= 0.01; about half of the draws are tied on purpose (equal frequencies, equal purines/pyrimidines, three equal, one at the floor; kappa1=kappa2, kappa1=kappa2=1; all rates equal, transitions/transversions, two rates tied). " +
 			"Protein: the seven matrices with model frequencies, user frequencies all equal, or drawn user frequencies (every component >= 0.002). Corners: every model at the corners of its domain (all 3^6 GTR rate vectors over {0.02,1,50} x six frequency vectors, t in {1e-8,1e-3,0.1,1,10,100}), enumerated. " +
 			"Oracle: the textbook rate matrix of the model written in the harness (proteins: exported exchangeabilities x pi_j), scaled to -sum pi_i q_ii = 1, exponentiated by a scaling-and-squaring Taylor series of the harness; on models.NewPij(model,t).Pij(i,j), and on one Pij object re-used through SetLength: entries in [0,1], rows summing to 1, P(0)=I, P(s)P(u)=P(s+u), pi_i P_ij = pi_j P_ji, equality with exp(Qt), all within 1e-8 absolute; P(100) within 1e-8 of pi whenever the oracle's own exp(100 Q) is within 1e-9 of it; for JC and K2P the analytical value equals R exp(Dt) L assembled by the harness from Eigens(). " +
-			"Re-initialisation: one model object (every nucleotide model; a Pij built before InitModel where the constructor sets default parameters: JC, K2P, F84), InitModel(A), all clauses and Eigens()/NewPij used, two Pij objects kept alive, InitModel(B) on the same object (B: everything redrawn, or only the rates, or only the frequencies): all clauses must hold for B, the Pij objects created before must give exp(Q_B t) once moved to another length by SetLength (their matrix at the unchanged length is not judged: the API keeps it), InitModel(A) again must reproduce the first matrices within 1e-12. Protein models: the same with the same object; while KNOWN_FINDINGS.txt lists protein-reinit, rounds 2 and 3 use further objects of the same matrix instead (the first one must keep its matrices). " +
+			"Re-initialisation: one model object (every nucleotide model; a Pij built before InitModel where the constructor sets default parameters: JC, K2P, F84), InitModel(A), all clauses and Eigens()/NewPij used, two Pij objects kept alive, InitModel(B) on the same object (B: everything redrawn, or only the rates, or only the frequencies): all clauses must hold for B, the Pij objects created before must give exp(Q_B t) once moved to another length by SetLength (their matrix at the unchanged length is not judged: the API keeps it), InitModel(A) again must reproduce the first matrices within 1e-12. Protein models: the same on one ProtModel object with model/user frequencies (every repeated InitModel under a 20 s watchdog: before the repair 31adb09 it could loop for ever). A deterministic sub-test re-runs the minimal reproduction of that repaired finding (LG, InitModel(nil) twice). " +
 			"Non-trivial: parameters away from the Jukes-Cantor point (a rate ratio beyond 1.5 or a frequency below 0.15; every protein matrix); distinct = distinct JSON form of the case",
 		Assumptions: []string{
 			"the published frequency vectors of Dayhoff, JTT, LG, WAG, HIVb and AB sum to 1 only to 1e-6..1e-9; 'one expected substitution per unit time' is accepted with the mean rate taken over the vector as published (PAML convention) or over its normalised form (counted as ambiguous_accepted)",
@@ -25,7 +25,7 @@ func init() {
 			{Name: "nucleotide", Test: "^TestNucleotide$", Quick: 40000, Thorough: 150000, Shards: 16},
 			{Name: "protein", Test: "^TestProtein$", Quick: 5000, Thorough: 20000, Shards: 16},
 			{Name: "corners", Test: "^TestCorners$", Quick: 1, Thorough: 1},
-			{Name: "reinit", Test: "^TestReinit$", Quick: 10000, Thorough: 100000, Shards: 8},
+			{Name: "reinit", Test: "^TestReinit$", Quick: 8000, Thorough: 100000, Shards: 8},
 			{Name: "reinit-known", Test: "^TestKnown", Quick: 1, Thorough: 1},
 		},
 	})
